@@ -1,9 +1,9 @@
 CONSTANTS
-  Operands <- AllOperands
+  Operands <- SimOperands
   Binary <- AllBinary
   Prefix = {"u-", "u+"}
   Postfix = {"%"}
-  Calls <- AllCalls
+  Calls <- SimCalls
   Parens = TRUE
   MaxLen = 9
   MinExport = 6
